@@ -44,7 +44,7 @@ def key_of(e):
     return None
 
 
-def run(ctx):
+def _run(ctx):
     ctx.explanation = ('Static clauses: (a) mirror equivalence (canonical AST modulo local renaming, left<->right swapped, &&-operands as sets): left_rotate == mirror(right_rotate); in insert_fixup and delete_fixup the '
                        '"x is a left child" branch == mirror of the other branch; (b) insert, find and find_or_larger agree on orientation (strictly smaller key goes / is searched LEFT, equal keys are inserted RIGHT and '
                        'returned by the finders) and find_or_larger records the candidate exactly when it steps left; (c) update_node changes the key in place only when pred < new < succ strictly, reports '
@@ -269,3 +269,10 @@ def check_remove(ctx, u, re_):
                    'when y becomes the successor of z its colour must be re-read into %s' % cv, note='colour of the spliced node decides the fix-up')
         re_.expect(any(a.s == '%s == PARSEC_RBTREE_BLACK' % cv and t is True for a, t, _ in f.guards(fix[0].point)), 'remove:fixup-guard', fix[0].loc,
                    'delete_fixup must run exactly when the spliced node was BLACK', note='fix-up only when a black node was removed')
+
+
+
+def run(ctx):
+    _run(ctx)
+    from rules import whowrites
+    whowrites.thorough(ctx, 'C36')
